@@ -139,7 +139,12 @@ func (e naiveEngine) oneStepEvalClause(clause ast.Clause) []ast.Atom {
 
 	var facts []ast.Atom
 	for _, sol := range solutions {
-		facts = append(facts, clause.Head.ApplySubst(sol).(ast.Atom))
+		// Like the semi-naive evaluator: substitute and evaluate function expressions in the head.
+		head, err := functional.EvalAtom(clause.Head, sol)
+		if err != nil {
+			continue
+		}
+		facts = append(facts, head)
 	}
 	return facts
 }
